@@ -38,13 +38,17 @@ var c20Mutations = []string{
 
 var c20States = []string{"steady", "master_down", "replica_down", "zk_lost_on_manager", "zk_outage", "maintenance", "sql_errors", "sql_hangs"}
 
-func c20Gen(seed int64, idx int, tier string) c20Spec {
+func c20Gen(seed int64, idx int, tier string, jobSeed int64) c20Spec {
 	r := rand.New(rand.NewSource(seed))
 	sp := c20Spec{N: 2 + r.Intn(3), Casc: r.Intn(2) == 0, MgrSw: r.Intn(2) == 0, W: 1 + r.Intn(2)}
 	nd := len(c20Mutations) * 2
 	switch {
 	case idx < nd:
-		sp.Family, sp.Mutation, sp.State = "dangling", c20Mutations[idx%len(c20Mutations)], c20States[r.Intn(len(c20States))]
+		// first round: the states rotate over the mutations (the rotation depends on the run's seed, every state occurs)
+		sp.Family, sp.Mutation, sp.State = "dangling", c20Mutations[idx%len(c20Mutations)], c20States[(idx+int(jobSeed%8+8))%len(c20States)]
+		if idx >= len(c20Mutations) {
+			sp.State = "steady" // every mutation is seen at least once by a manager that runs complete iterations
+		}
 		if sp.Mutation == "stream_from_unregistered" || sp.Mutation == "stream_from_self" || sp.Mutation == "stream_from_cycle" || sp.Mutation == "switch_to_cascade" || sp.Mutation == "cascade_config_garbage" {
 			sp.Casc = true
 		}
@@ -128,7 +132,7 @@ func (g *growth) judge(sc *Scen, what string) {
 }
 
 func c20Run(u *Unit) {
-	sp := c20Gen(u.Seed, u.Idx, u.Job.Tier)
+	sp := c20Gen(u.Seed, u.Idx, u.Job.Tier, u.Job.Seed)
 	switch sp.Family {
 	case "switch-wreck":
 		// half-done switchovers and failovers with dying managers and failing statements: the C06/C07
